@@ -14,11 +14,15 @@ INFO = {
                    "for a returned frame, by regp_recv itself on a channel error). Behavioural clauses: oversized frame -> "
                    "ERXOVERFLOW response (when a request header is recognisable), read whose answer cannot fit -> "
                    "ETXOVERFLOW with the buffer size and no memory access, allocation failure -> EBUSY response, frames "
-                   "shorter than a header incl. the empty one -> bad header encoding; termination by unwinding assertions.",
+                   "shorter than a header incl. the empty one -> bad header encoding; termination by unwinding assertions. "
+                   "c09_txerr_*: the transmitting side refuses every frame; the documented loop (recv, process, free) "
+                   "still releases every block exactly once, never executes a frame that failed reception or fails the "
+                   "independent reading, and returns 0 or the sink's error.",
     "bounds": {"quick": {"LMAX": 20, "K": [1, 12, 14, 16, 17, 24]},
                "thorough": {"LMAX": 28, "K": [1, 2, 11, 12, 13, 14, 15, 16, 17, 20, 24, 28, 32, 40, 48, 64]}},
     "outside_bounds": ["block sizes other than the enumerated ones", "streams longer than LMAX",
-                       "the real malloc-backed allocator (ufw_malloc is two lines)", "sink errors while replying",
+                       "the real malloc-backed allocator (ufw_malloc is two lines)",
+                       "sink errors while replying other than 'every transmission refused' (c09_txerr_*)",
                        "the reply to an oversized or busy frame whose header is not a recognisable request"],
     "stubs": ["framing layer replaced by its contract", "allocator: exact-size static block, arbitrary contents, ledger",
               "memory backend: asserts buffer extent", "bit-serial CRC specification instead of the table (C16)",
@@ -67,6 +71,20 @@ def instances(tier):
                 if tcp:
                     d["TCP"] = None
                 out.append(mk("c09_srcerr_k%d_%s_%s" % (k, "tcp" if tcp else "serial", "busy" if af else "ok"),
+                              "C09/c09.c", rc.UNITS, d, unwind=UW, default_unwind=lmax + 2, encoded_units=rc.ENC,
+                              fp_removal=True, replay_units=rc.REPLAY_UNITS, object_bits=12, timeout=3000, mem_gb=10))
+    # the transmitter refuses every frame (sink error while replying), documented loop continues
+    for k in ([14, 24] if tier == "quick" else [1, 14, 24, 32]):
+        UW = rc.unwind(lmax, k, 2)
+        UW["header_ok"] = lmax + 2
+        for tcp in (0, 1):
+            if tier == "quick" and tcp != (k == 24):
+                continue
+            for af in ((0,) if tier == "quick" else (0, 1)):
+                d = {"LMAX": lmax, "PW": 2, "KEXTRA": k, "MODE_TXERR": None, "ALLOC_FAILS": af}
+                if tcp:
+                    d["TCP"] = None
+                out.append(mk("c09_txerr_k%d_%s_%s" % (k, "tcp" if tcp else "serial", "busy" if af else "ok"),
                               "C09/c09.c", rc.UNITS, d, unwind=UW, default_unwind=lmax + 2, encoded_units=rc.ENC,
                               fp_removal=True, replay_units=rc.REPLAY_UNITS, object_bits=12, timeout=3000, mem_gb=10))
     return out
